@@ -306,7 +306,9 @@ impl<'a> MediaPlaylistBuilder<'a> {
         for (i, segment) in segments.iter_mut() {
             // assign the correct number to all implcitly numbered segments:
             if !segment.explicit_number {
-                segment.number = i + sequence_number;
+                segment.number = i
+                    .checked_add(sequence_number)
+                    .ok_or_else(|| "the segment number overflows".to_string())?;
             }
 
             // add the segment number as iv, if the iv is missing:
